@@ -36,7 +36,7 @@ REQUIRED_CLASSES = ['transfer_reentered', 'later_bound_rejection',
 
 def plan(tier):
     if tier == 'quick':
-        return dict(shards=16, budget_s=85, examples=14)
+        return dict(shards=16, budget_s=70, examples=14)
     return dict(shards=16, budget_s=1000, examples=220)
 
 
